@@ -221,6 +221,9 @@ func runCheck(id, tier string, seed int64) int {
 	}
 	harness := 0
 	for start := 0; start < len(worlds); start += bs {
+		if len(found) > 0 && os.Getenv("VERIF_STOP_AFTER_FIRST") != "" {
+			break // development aid: the verdict is already known, skip the remaining batches
+		}
 		end := start + bs
 		if end > len(worlds) {
 			end = len(worlds)
